@@ -31,38 +31,50 @@ func (h *connHandler) enter(kind string, token int) {
 
 func (h *connHandler) Echo(ctx context.Context, token int) (int, error) {
 	h.enter("echo", token)
-	h.env.tr.ev("h.end", token, ctx.Err() != nil)
+	h.env.tr.evEnd(token, ctx)
 	return token, nil
 }
 
 // Plain has no error result: a failed call hands its caller the zero value; the library must still not re-send it
 func (h *connHandler) Plain(ctx context.Context, token int) int {
 	h.enter("plain", token)
-	h.env.tr.ev("h.end", token, ctx.Err() != nil)
+	h.env.tr.evEnd(token, ctx)
 	return token
 }
 
 func (h *connHandler) Retry(ctx context.Context, token int) (int, error) {
 	h.enter("retry", token)
-	h.env.tr.ev("h.end", token, ctx.Err() != nil)
+	h.env.tr.evEnd(token, ctx)
 	return token, nil
 }
 
 func (h *connHandler) RetryNC(ctx context.Context, token int) (int, error) {
 	h.enter("retrync", token)
-	h.env.tr.ev("h.end", token, ctx.Err() != nil)
+	h.env.tr.evEnd(token, ctx)
+	return token, nil
+}
+
+func (h *connHandler) RetryNo(ctx context.Context, token int) (int, error) {
+	h.enter("retryno", token)
+	h.env.tr.evEnd(token, ctx)
+	return token, nil
+}
+
+func (h *connHandler) Retry0(ctx context.Context, token int) (int, error) {
+	h.enter("retry0", token)
+	h.env.tr.evEnd(token, ctx)
 	return token, nil
 }
 
 func (h *connHandler) Fail(ctx context.Context, token int) (int, error) {
 	h.enter("fail", token)
-	h.env.tr.ev("h.end", token, ctx.Err() != nil)
+	h.env.tr.evEnd(token, ctx)
 	return 0, fmt.Errorf("fail-%d", token)
 }
 
 func (h *connHandler) Big(ctx context.Context, token int, size int) (string, error) {
 	h.enter("big", token)
-	h.env.tr.ev("h.end", token, ctx.Err() != nil)
+	h.env.tr.evEnd(token, ctx)
 	return fmt.Sprintf("%d:", token) + strings.Repeat("x", size), nil
 }
 
@@ -82,7 +94,7 @@ func (h *connHandler) WaitCtx(ctx context.Context, token int) (int, error) {
 		h.env.tr.ev("h.end", token, true)
 		return -token, nil
 	case <-ch:
-		h.env.tr.ev("h.end", token, ctx.Err() != nil)
+		h.env.tr.evEnd(token, ctx)
 		return token, nil
 	}
 }
@@ -97,7 +109,7 @@ func (h *connHandler) NoteWait(ctx context.Context, token int) {
 		h.env.tr.ev("h.ctxdone", token)
 		h.env.tr.ev("h.end", token, true)
 	case <-ch:
-		h.env.tr.ev("h.end", token, ctx.Err() != nil)
+		h.env.tr.evEnd(token, ctx)
 	}
 }
 
@@ -144,7 +156,7 @@ func (h *connHandler) Sub(ctx context.Context, token int, n int) (<-chan int, er
 			}
 		}
 	}()
-	h.env.tr.ev("h.end", token, ctx.Err() != nil)
+	h.env.tr.evEnd(token, ctx)
 	return ch, nil
 }
 
@@ -204,7 +216,38 @@ func (h *connHandler) SubS(ctx context.Context, token int, n int) (<-chan cpElem
 			}
 		}
 	}()
-	h.env.tr.ev("h.end", token, ctx.Err() != nil)
+	h.env.tr.evEnd(token, ctx)
+	return ch, nil
+}
+
+// anyElem is element i of a SubAny stream: every third one is an untyped nil, the others numbers and strings
+func anyElem(token, i int) interface{} {
+	switch i % 3 {
+	case 1:
+		return nil
+	case 2:
+		return fmt.Sprintf("s%d", token*1000+i)
+	}
+	return float64(token*1000 + i)
+}
+
+// SubAny streams n elements of interface type (the element type of the channel is interface{}); no producer events are
+// traced: these streams are judged by the direct oracle only
+func (h *connHandler) SubAny(ctx context.Context, token int, n int) (<-chan interface{}, error) {
+	h.env.tr.ev("h.start", token, "subany")
+	h.env.execs.Store(token, h.env.execCount(token)+1)
+	ch := make(chan interface{}, h.env.subBuf)
+	go func() {
+		defer close(ch)
+		for i := 0; i < n; i++ {
+			select {
+			case ch <- anyElem(token, i):
+			case <-ctx.Done():
+				return
+			}
+		}
+	}()
+	h.env.tr.evEnd(token, ctx)
 	return ch, nil
 }
 
@@ -219,7 +262,7 @@ func (h *connHandler) SubWait(ctx context.Context, token int, n int) (<-chan int
 	}
 	ch := make(chan int)
 	close(ch)
-	h.env.tr.ev("h.end", token, ctx.Err() != nil)
+	h.env.tr.evEnd(token, ctx)
 	return ch, nil
 }
 
@@ -227,6 +270,8 @@ type connClient struct {
 	Echo     func(ctx context.Context, token int) (int, error)
 	Retry    func(ctx context.Context, token int) (int, error) `retry:"true"`
 	RetryNC  func(token int) (int, error)                      `retry:"true"` // retry-tagged, no context parameter
+	RetryNo  func(ctx context.Context, token int) (int, error) `retry:"no"`   // not tagged for retry: only "true" tags a method
+	Retry0   func(ctx context.Context, token int) (int, error) `retry:"0"`
 	Plain    func(ctx context.Context, token int) int
 	Fail     func(ctx context.Context, token int) (int, error)
 	Big      func(ctx context.Context, token int, size int) (string, error)
@@ -235,6 +280,7 @@ type connClient struct {
 	NoteWait func(ctx context.Context, token int) error `notify:"true"`
 	Sub      func(ctx context.Context, token int, n int) (<-chan int, error)
 	SubS     func(ctx context.Context, token int, n int) (<-chan cpElem, error)
+	SubAny   func(ctx context.Context, token int, n int) (<-chan interface{}, error)
 	SubWait  func(ctx context.Context, token int, n int) (<-chan int, error)
 }
 
@@ -309,15 +355,16 @@ func (e *connEnv) releaseAllHolds() {
 }
 
 type connOpts struct {
-	noReconnect  bool
-	errors       bool
-	ping         time.Duration
-	timeout      time.Duration
-	backoffMin   time.Duration
-	backoffMax   time.Duration
-	srvPing      time.Duration
-	clientCtx    context.Context // context handed to the client constructor (nil: Background)
-	timeoutFirst bool            // list WithTimeout before WithPingInterval
+	noReconnect      bool
+	errors           bool
+	ping             time.Duration
+	timeout          time.Duration
+	backoffMin       time.Duration
+	backoffMax       time.Duration
+	srvPing          time.Duration
+	clientCtx        context.Context // context handed to the client constructor (nil: Background)
+	timeoutFirst     bool            // list WithTimeout before WithPingInterval
+	noReconnectFirst bool            // list WithNoReconnect before WithReconnectBackoff
 }
 
 func newConnEnv(o connOpts) *connEnv {
@@ -341,7 +388,11 @@ func newConnEnv(o connOpts) *connEnv {
 		copts[1], copts[2] = copts[2], copts[1]
 	}
 	if o.noReconnect {
-		copts = append(copts, jsonrpc.WithNoReconnect())
+		if o.noReconnectFirst {
+			copts = append([]jsonrpc.Option{jsonrpc.WithNoReconnect()}, copts...)
+		} else {
+			copts = append(copts, jsonrpc.WithNoReconnect())
+		}
 	}
 	if o.errors {
 		copts = append(copts, jsonrpc.WithErrors(jsonrpc.NewErrors()))
@@ -416,6 +467,10 @@ func (e *connEnv) call(kind string, ctx context.Context, extra ...int) int {
 			v, err = e.cl.Echo(ctx, token)
 		case "retry":
 			v, err = e.cl.Retry(ctx, token)
+		case "retryno":
+			v, err = e.cl.RetryNo(ctx, token)
+		case "retry0":
+			v, err = e.cl.Retry0(ctx, token)
 		case "retrync":
 			func() {
 				// a panic inside the proxy function belongs to this call: it neither returned a result nor an error
